@@ -85,6 +85,14 @@ impl<'a> FullnameSerializer<'a> {
             .push(FullnameInfo::new(defined_namespaces, current_fullname_info));
     }
 
+    // is the empty prefix bound to a namespace at this point
+    pub(crate) fn has_default_namespace(&self) -> bool {
+        self.top()
+            .all_namespaces
+            .iter()
+            .any(|(p, ns)| *p == self.xot.empty_prefix() && *ns != self.xot.no_namespace_id)
+    }
+
     pub(crate) fn has_empty_prefix(&self, namespace_id: NamespaceId) -> bool {
         let prefix_id = self
             .top()
